@@ -6,12 +6,18 @@
    [unified_normalise] (FormatSpec.v) say what "the same changes at the same line ranges" means
    for each format; [patch_ok L R cs] says that the chunk list cs describes how L becomes R
    (ranges consistent with the edits, gaps unchanged); [apply_normal]/[apply_unified]/
-   [apply_context] (ApplySpec.v) are the reference appliers written from the diffutils manual. *)
+   [apply_context] (ApplySpec.v) are the reference appliers written from the diffutils manual, in
+   their strict reading: besides placing and checking the old lines they demand that the numbers
+   describing the NEW file are exactly where the new lines land ([apply_*_gen false] is the reading
+   that ignores those numbers, as GNU patch does).
+   The END-TO-END theorems at the bottom quantify over the two input files only: the chunk lists
+   are the ones the package computes, New(lhs, rhs) and New(lhs, rhs).AddContext(n).Unify()
+   (C13's model composed with C11's model of slice.EditScript). *)
 From Coq Require Import NArith ZArith List Lia.
 Import ListNotations.
 From Mds Require Import Mdiff.Decimal Mdiff.ReaderModel Mdiff.FormatSpec Mdiff.ApplySpec Mdiff.FormatInst
   Mdiff.ReaderNormalProofs Mdiff.ApplyNormalProofs Mdiff.ReaderUnifiedProofs Mdiff.ApplyUnifiedProofs Mdiff.ApplyContextProofs Mdiff.ReaderGitProofs Mdiff.FormatPatchOk
-  Mdiff.FormatRefuted.
+  Mdiff.FormatRefuted Mdiff.MdiffModel Mdiff.FormatEndToEnd.
 Local Open Scope Z_scope.
 
 (* every number the formatters print is read back by the model of strconv.Atoi *)
@@ -35,8 +41,9 @@ Proof.
     apply (cf_cons _ 3 3 [[99]%N] (mkChunk [mkEdit Copy [] [[121]%N]] 4 4 4 5) [] [] []); try reflexivity.
     apply (cf_nil _ 4 5 []).
   - repeat constructor; cbn; try lia; discriminate.
-  - unfold lines_nf, ex_cs, chunk_lines_nf, edit_lines_nf.
-    repeat (apply Forall_cons || apply Forall_nil || split); unfold newline_free; cbn;
+  - unfold lines_nf, ex_cs, chunk_lines_nf.
+    repeat (apply Forall_cons || apply Forall_nil); unfold edit_lines_nf; cbn [eop X Y edits];
+      repeat (apply Forall_cons || apply Forall_nil || split); unfold newline_free; cbn;
       intuition discriminate.
 Qed.
 
@@ -58,7 +65,9 @@ Theorem C14_normal_reformat : forall cs : list (chunk line), normal (normal_norm
 Proof. exact normal_reformat. Qed.
 Print Assumptions C14_normal_reformat.
 
-(* the normal rendering, read by the rules of the normal format, turns Left into Right *)
+(* the normal rendering, read by the rules of the normal format, turns Left into Right; strict
+   reading: "LaR" must add exactly lines R of the new file, "FcT" must produce exactly lines T,
+   "RdL" must delete where new line L is the last line before the deletion *)
 Theorem C14_normal_apply : forall (L R : list line) (cs : list (chunk line)),
   patch_ok L R cs -> normal_ok cs -> lines_nf cs ->
   apply_normal L (split_lines (normal cs)) = Some R.
@@ -167,13 +176,13 @@ Example C14_unified_apply_ex :
   /\ apply_unified [[97]%N] (split_lines (x_unified repaired None f6_cs)) = Some [[98]; [97]]%N.
 Proof. vm_compute. auto. Qed.
 
-(* on the code as it stands, restricted away from the trigger of F6: no hunk with an empty left
-   range (no pure insertion without context).  Missing: those hunks (see _refuted). *)
+(* on the code as it stands, restricted away from the trigger of F6: no hunk with an empty range
+   (no pure insertion and no pure deletion without context).  Missing: those hunks (see _refuted). *)
 Theorem C14_unified_apply_partial :
   forall (time : Type) (time_is_zero : time -> bool) (format_time : time -> bytes),
     (forall t, newline_free (format_time t)) ->
   forall (fi : option (file_info time)) (L R : list line) (cs : list (chunk line)),
-    Forall nonempty_left cs -> patch_ok L R cs -> lines_nf cs -> info_ok time fi ->
+    Forall (nonempty_sides true) cs -> patch_ok L R cs -> lines_nf cs -> info_ok time fi ->
     apply_unified L (split_lines (unified time_is_zero format_time pinned fi cs)) = Some R.
 Proof.
   intros time iz fmt H fi L R cs Hne Hp Hnf Hfi.
@@ -181,34 +190,68 @@ Proof.
 Qed.
 Print Assumptions C14_unified_apply_partial.
 Example C14_unified_apply_partial_ex :
-  Forall nonempty_left f5_cs /\ apply_unified [[97]; [98]]%N (split_lines (x_unified pinned None f5_cs)) = Some [[97]; [99]]%N.
-Proof. split; [constructor; [unfold nonempty_left; cbn; lia | constructor] | vm_compute; reflexivity]. Qed.
+  Forall (nonempty_sides true) f5_cs /\ apply_unified [[97]; [98]]%N (split_lines (x_unified pinned None f5_cs)) = Some [[97]; [99]]%N.
+Proof.
+  split; [constructor; [split; [|intros _]; unfold nonempty_left, nonempty_right; cbn; lia | constructor] | vm_compute; reflexivity].
+Qed.
 
-(* F6: Left = [a], Right = [b; a]: the hunk "@@ -1,0 +1 @@ +b" inserts after line 1 *)
+(* on the code as it stands, reading the hunks as GNU patch does (the new-file start is not
+   used to place anything): only an empty LEFT range goes wrong; a pure deletion is written with
+   the wrong new-file line ("+2,0" for "+1,0") but lands in the right place *)
+Theorem C14_unified_apply_lenient_partial :
+  forall (time : Type) (time_is_zero : time -> bool) (format_time : time -> bytes),
+    (forall t, newline_free (format_time t)) ->
+  forall (fi : option (file_info time)) (L R : list line) (cs : list (chunk line)),
+    Forall nonempty_left cs -> patch_ok L R cs -> lines_nf cs -> info_ok time fi ->
+    apply_unified_gen false L (split_lines (unified time_is_zero format_time pinned fi cs)) = Some R.
+Proof.
+  intros time iz fmt H fi L R cs Hne Hp Hnf Hfi.
+  apply (apply_unified_text_lenient time iz fmt H); [right; exact Hne | exact Hp | exact Hnf | exact Hfi].
+Qed.
+Print Assumptions C14_unified_apply_lenient_partial.
+Example C14_unified_apply_lenient_partial_ex :   (* [a b c] -> [a c]: "@@ -2 +2,0 @@" *)
+  let cs := [mkChunk [mkEdit Drop [[98]%N] []] 2 3 2 2] in
+  Forall nonempty_left cs /\ patch_okb [[97]; [98]; [99]]%N [[97]; [99]]%N cs = true /\
+  apply_unified_gen false [[97]; [98]; [99]]%N (split_lines (x_unified pinned None cs)) = Some [[97]; [99]]%N /\
+  apply_unified [[97]; [98]; [99]]%N (split_lines (x_unified pinned None cs)) = None /\
+  apply_unified [[97]; [98]; [99]]%N (split_lines (x_unified repaired None cs)) = Some [[97]; [99]]%N.
+Proof.
+  cbn zeta. split; [constructor; [unfold nonempty_left; cbn; lia | constructor] | vm_compute; auto].
+Qed.
+
+(* F6: Left = [a], Right = [b; a]: the hunk "@@ -1,0 +1 @@ +b" inserts after line 1 when placed by
+   its left range, and read strictly it contradicts itself *)
 Theorem C14_apply_refuted :
   exists (L R : list line) (cs : list (chunk line)),
     patch_ok L R cs /\
     x_unified pinned None cs = [64;64;32;45;49;44;48;32;43;49;32;64;64;10; 43;98;10]%N /\
-    apply_unified L (split_lines (x_unified pinned None cs)) = Some [[97]; [98]]%N /\
-    apply_unified L (split_lines (x_unified pinned None cs)) <> Some R.
+    apply_unified_gen false L (split_lines (x_unified pinned None cs)) = Some [[97]; [98]]%N /\
+    apply_unified L (split_lines (x_unified pinned None cs)) = None /\
+    apply_unified_gen false L (split_lines (x_unified pinned None cs)) <> Some R.
 Proof. exact apply_refuted. Qed.
 Print Assumptions C14_apply_refuted.
 
 (* ---- context format (holds on the code as it stands) ----
-   The hunks Context writes (no file header), read by the rules of the context format - an omitted
-   section is reconstructed from the context lines of the other, "s,s-1" is the empty range
-   before line s - turn Left into Right, for chunk lists whose commands have lines and whose
-   chunks change something ([context_ok]). *)
+   What Context writes - with or without the two-line file header "*** name", "--- name", whatever
+   the names are (the applier skips a leading pair of lines with these prefixes; hunks start with
+   the line of 15 stars) - read by the rules of the context format turns Left into Right: an
+   omitted section is reconstructed from the context lines of the other, "s,s-1" is the empty
+   range before line s; strict reading: both ranges must have the length of their sections and
+   the new range must be where the new lines land.  For chunk lists whose commands have lines and
+   whose chunks change something ([context_ok]). *)
 Theorem C14_context_apply :
-  forall (time : Type) (time_is_zero : time -> bool) (format_time : time -> bytes)
-         (L R : list line) (cs : list (chunk line)),
-    patch_ok L R cs -> context_ok cs -> lines_nf cs ->
-    apply_context L (split_lines (context time_is_zero format_time None cs)) = Some R.
-Proof. exact apply_context_text. Qed.
+  forall (time : Type) (time_is_zero : time -> bool) (format_time : time -> bytes),
+    (forall t, newline_free (format_time t)) ->
+  forall (fi : option (file_info time)) (L R : list line) (cs : list (chunk line)),
+    patch_ok L R cs -> context_ok cs -> lines_nf cs -> info_ok time fi ->
+    apply_context L (split_lines (context time_is_zero format_time fi cs)) = Some R.
+Proof. intros time iz fmt H fi L R cs. exact (apply_context_text time iz fmt H fi L R cs). Qed.
 Print Assumptions C14_context_apply.
 Example C14_context_apply_ex :
   context_ok ex_cs /\ apply_context ex_L (split_lines (x_context None ex_cs)) = Some ex_R
-  /\ apply_context [[97]%N] (split_lines (x_context None f6_cs)) = Some [[98]; [97]]%N.
+  /\ apply_context [[97]%N] (split_lines (x_context None f6_cs)) = Some [[98]; [97]]%N
+  (* a header whose names look like range lines: "*** 1,2 ****" and "--- x ----" *)
+  /\ apply_context ex_L (split_lines (x_context (Some (mkFileInfo [49;44;50;32;42;42;42;42]%N [120;32;45;45;45;45]%N [] [])) ex_cs)) = Some ex_R.
 Proof.
   split; [|vm_compute; auto].
   repeat (apply Forall_cons || apply Forall_nil || split); cbn; try reflexivity; discriminate.
@@ -266,3 +309,109 @@ Proof. exact patch_okb_sound. Qed.
 Print Assumptions C14_patch_okb_sound.
 Example C14_patch_okb_ex : patch_okb ex_L ex_R ex_cs = true.
 Proof. vm_compute. reflexivity. Qed.
+
+(* ================================================================ END TO END
+   From the two files alone.  [diff_new lhs rhs] is New(lhs, rhs) (C13's chunk model on the
+   script computed by C11's model of slice.EditScript, lines compared with ==);
+   [rendered_chunks lhs rhs n cs] says that cs is d.Chunks of New(lhs, rhs) or of
+   New(lhs, rhs).AddContext(n).Unify().  Every n in Z (AddContext does nothing for n <= 0). *)
+
+(* the pipeline never fails *)
+Theorem C14_pipeline_total : forall (lhs rhs : list line) (n : Z),
+  exists d1 d2, diff_add_context bytes_eqb n (diff_new lhs rhs) = Ok d1 /\ diff_unify d1 = Ok d2.
+Proof. exact pipeline_total. Qed.
+Print Assumptions C14_pipeline_total.
+
+(* the hypotheses of all the theorems above hold of the package's own chunk lists *)
+Theorem C14_pipeline_well_formed : forall (lhs rhs : list line) (n : Z) (cs : list (chunk line)),
+  Forall newline_free lhs -> Forall newline_free rhs -> rendered_chunks lhs rhs n cs ->
+  patch_ok lhs rhs cs /\ normal_ok cs /\ context_ok cs /\ lines_nf cs.
+Proof. exact pipeline_well_formed. Qed.
+Print Assumptions C14_pipeline_well_formed.
+Example C14_pipeline_ex :   (* New([a b c], [a x c y]) and the same with one line of context *)
+  rendered_chunks ex_L ex_R 1 ex_cs /\
+  rendered_chunks ex_L ex_R 1
+    [mkChunk [mkEdit Emit [[97]%N] []; mkEdit Replace [[98]%N] [[120]%N]; mkEdit Emit [[99]%N] []; mkEdit Copy [] [[121]%N]] 1 4 1 5].
+Proof.
+  split; [left; vm_compute; reflexivity|].
+  right. eexists. eexists. split; [vm_compute; reflexivity|]. split; vm_compute; reflexivity.
+Qed.
+
+(* NORMAL, code as it stands: for all lhs rhs n, the rendering applied to lhs gives rhs, reads back
+   as one chunk per change command, and re-formats to the same bytes *)
+Theorem C14_end_to_end_normal : forall (lhs rhs : list line) (n : Z) (cs : list (chunk line)),
+  Forall newline_free lhs -> Forall newline_free rhs -> rendered_chunks lhs rhs n cs ->
+  apply_normal lhs (split_lines (normal cs)) = Some rhs /\
+  read_normal (normal cs) = ROk (normal_normalise cs) /\
+  normal (normal_normalise cs) = normal cs.
+Proof. exact e2e_normal. Qed.
+Print Assumptions C14_end_to_end_normal.
+
+(* CONTEXT, code as it stands, with or without file header *)
+Theorem C14_end_to_end_context :
+  forall (time : Type) (time_is_zero : time -> bool) (format_time : time -> bytes),
+    (forall t, newline_free (format_time t)) ->
+  forall (lhs rhs : list line) (n : Z) (cs : list (chunk line)),
+    Forall newline_free lhs -> Forall newline_free rhs -> rendered_chunks lhs rhs n cs ->
+  forall fi : option (file_info time), info_ok time fi ->
+    apply_context lhs (split_lines (context time_is_zero format_time fi cs)) = Some rhs.
+Proof. exact e2e_context. Qed.
+Print Assumptions C14_end_to_end_context.
+
+(* UNIFIED, repaired switches, FULL: applies, reads back hunk for hunk with the header, re-formats *)
+Theorem C14_end_to_end_unified :
+  forall (time : Type) (zero_time : time) (time_is_zero : time -> bool)
+         (format_time : time -> bytes) (parse_time : bytes -> option time),
+    (forall t, time_is_zero t = false -> parse_time (format_time t) = Some t) ->
+    (forall t, newline_free (format_time t)) ->
+    (forall t, time_is_zero t = true -> t = zero_time) ->
+  forall (lhs rhs : list line) (n : Z) (cs : list (chunk line)),
+    Forall newline_free lhs -> Forall newline_free rhs -> rendered_chunks lhs rhs n cs ->
+  forall fi : option (file_info time), info_ok time fi ->
+    apply_unified lhs (split_lines (unified time_is_zero format_time repaired fi cs)) = Some rhs /\
+    read_unified time zero_time parse_time repaired (unified time_is_zero format_time repaired fi cs)
+      = ROk (mkPatch (expected_info time fi cs) (unified_normalise cs)) /\
+    unified time_is_zero format_time repaired (expected_info time fi cs) (unified_normalise cs)
+      = unified time_is_zero format_time repaired fi cs.
+Proof.
+  intros time z iz fmt prs H1 H2 H3 lhs rhs n cs Hl Hr Hcs fi Hfi.
+  destruct (e2e_unified time z iz fmt prs H1 H2 H3 lhs rhs n cs Hl Hr Hcs repaired fi Hfi) as (Ha & Hb & Hc).
+  split; [apply Ha; left; reflexivity|]. split; [apply Hb; left; reflexivity | exact Hc].
+Qed.
+Print Assumptions C14_end_to_end_unified.
+
+(* UNIFIED, code as it stands (pinned), PARTIAL: application for diffs without an empty range,
+   reading for diffs without a one-line side; re-formatting always.  Missing: F6 / F5. *)
+Theorem C14_end_to_end_unified_partial :
+  forall (time : Type) (zero_time : time) (time_is_zero : time -> bool)
+         (format_time : time -> bytes) (parse_time : bytes -> option time),
+    (forall t, time_is_zero t = false -> parse_time (format_time t) = Some t) ->
+    (forall t, newline_free (format_time t)) ->
+    (forall t, time_is_zero t = true -> t = zero_time) ->
+  forall (lhs rhs : list line) (n : Z) (cs : list (chunk line)),
+    Forall newline_free lhs -> Forall newline_free rhs -> rendered_chunks lhs rhs n cs ->
+  forall fi : option (file_info time), info_ok time fi ->
+    (Forall (nonempty_sides true) cs ->
+       apply_unified lhs (split_lines (unified time_is_zero format_time pinned fi cs)) = Some rhs) /\
+    (Forall no_one_line_side cs ->
+       read_unified time zero_time parse_time pinned (unified time_is_zero format_time pinned fi cs)
+       = ROk (mkPatch (expected_info time fi cs) (unified_normalise cs))) /\
+    unified time_is_zero format_time pinned (expected_info time fi cs) (unified_normalise cs)
+      = unified time_is_zero format_time pinned fi cs.
+Proof.
+  intros time z iz fmt prs H1 H2 H3 lhs rhs n cs Hl Hr Hcs fi Hfi.
+  destruct (e2e_unified time z iz fmt prs H1 H2 H3 lhs rhs n cs Hl Hr Hcs pinned fi Hfi) as (Ha & Hb & Hc).
+  split; [intros H; apply Ha; right; exact H|]. split; [intros H; apply Hb; right; exact H | exact Hc].
+Qed.
+Print Assumptions C14_end_to_end_unified_partial.
+
+(* UNIFIED, code as it stands, REFUTED end to end: New([a b],[a c]) does not read back (F5);
+   New([a],[b a]) does not apply, strictly or leniently (F6) *)
+Theorem C14_end_to_end_refuted :
+  (exists lhs rhs cs, Forall newline_free lhs /\ Forall newline_free rhs /\ rendered_chunks lhs rhs 0 cs /\
+     x_read_unified pinned (x_unified pinned None cs) <> ROk (mkPatch None (unified_normalise cs))) /\
+  (exists lhs rhs cs, Forall newline_free lhs /\ Forall newline_free rhs /\ rendered_chunks lhs rhs 0 cs /\
+     apply_unified lhs (split_lines (x_unified pinned None cs)) <> Some rhs /\
+     apply_unified_gen false lhs (split_lines (x_unified pinned None cs)) <> Some rhs).
+Proof. exact e2e_refuted. Qed.
+Print Assumptions C14_end_to_end_refuted.
